@@ -418,8 +418,8 @@ func exprOracle(c *lib.Ctx, cs e2eCase, formatted string, before, after evalResu
 type sLit struct {
 	Quote  string `json:"quote"` // ' " ''' """
 	Body   string `json:"body"`
-	Cont   bool   `json:"continuation,omitempty"`     // holds a backslash-newline
-	Single bool   `json:"single_line,omitempty"`      // ' or "
+	Cont   bool   `json:"continuation,omitempty"` // holds a backslash-newline
+	Single bool   `json:"single_line,omitempty"`  // ' or "
 }
 
 func (l sLit) token() string { return l.Quote + l.Body + l.Quote }
